@@ -96,7 +96,8 @@ def run_job(job: dict) -> dict:
     handler = _ListHandler()
     root_logger = logging.getLogger()
     old_level = root_logger.level
-    root_logger.addHandler(handler)
+    old_handlers = root_logger.handlers[:]
+    root_logger.handlers = [handler]
     root_logger.setLevel(logging.INFO)
     mypy_build.build = build_wrapper
     Path.glob = glob_wrapper  # type: ignore[method-assign]
@@ -115,6 +116,11 @@ def run_job(job: dict) -> dict:
             if job.get("encode_api", True):
                 import apienc
                 res["api_sx"] = vlib.sx(apienc.api_sx(api))
+            if job.get("doc_types"):
+                res["param_doc_types"] = {pid: ([] if pr.docstring.type is None else [vlib.ty_sx(pr.docstring.type)])
+                                          for pid, pr in api.parameters_.items()}
+                res["result_docs"] = {fid: [[[] if rd.type is None else [vlib.ty_sx(rd.type)], rd.description, rd.name]
+                                            for rd in fn.result_docstrings] for fid, fn in api.functions.items()}
             if job.get("keep_api"):
                 res["_api_obj"] = api
             if out is not None:
@@ -144,7 +150,7 @@ def run_job(job: dict) -> dict:
     finally:
         mypy_build.build = orig_build
         Path.glob = orig_glob  # type: ignore[method-assign]
-        root_logger.removeHandler(handler)
+        root_logger.handlers = old_handlers
         root_logger.setLevel(old_level)
     res["log"] = handler.records
     res["stdout"] = stdout.getvalue()[-500:]
